@@ -17,7 +17,9 @@ def gen(rng: random.Random, tier: str):
         L = rng.sample(universe, rng.randint(0, 10))
         T = rng.sample(universe, rng.randint(0, 8))
         yield {"recs": L, "test": T, "gains": [rng.randint(0, 10) / 2 for _ in T], "k": rng.choice([None, None] + list(range(1, 13))),
-               "pat": rng.choice(["1/8", "1/2", "7/8", "17/20"]), "disc": rng.choice(["log2", "log2", "log2p1", "rank-int"])}
+               "pat": rng.choice(["1/8", "1/2", "7/8", "17/20"]), "disc": rng.choice(["log2", "log2", "log2p1", "rank-int"]),
+               # popularity of the 12 universe items in a training dataset (0 = known but never interacted with); the list may also recommend items unknown to it
+               "pop_counts": [rng.choice([0, 1, 1, 2, 3, 4]) for _ in universe], "pop_unknown": rng.sample([50, 51, 52], rng.choice([0, 0, 1, 2]))}
 
 def _metrics(k, pat, disc):
     from lenskit.metrics.ranking import Hit, Precision, Recall, RecipRank, RBP, DCG, NDCG
@@ -56,6 +58,27 @@ def run(case: dict, lean: Lean) -> Outcome:
         # consequences, evaluated on the implementation alone
         if isinstance(real, float) and name in NORMALISED and not (-TOL <= real <= 1 + TOL):
             spec = False; failed.append(f"{name}: {real} outside [0, 1]")
+    # MeanPopRank against the popularity table of a training dataset, with unknown and never-seen items in the list
+    if case.get("pop_counts") and sum(case["pop_counts"]) > 0:
+        import pandas as pd
+        from lenskit.data import from_interactions_df, DatasetBuilder, ItemList
+        from lenskit.metrics.ranking import MeanPopRank
+        pc = case["pop_counts"]
+        b = DatasetBuilder(from_interactions_df(pd.DataFrame([(1000 + u, i) for i, c in enumerate(pc) for u in range(c)], columns=["user_id", "item_id"])))
+        b.add_entities("item", [i for i, c in enumerate(pc) if c == 0], duplicates="update")
+        tds = b.build()
+        Lp = list(L)
+        for j, x in enumerate(case.get("pop_unknown", [])): Lp.insert(min(len(Lp), 2 * j + 1), x)
+        try:
+            with np.errstate(all="ignore"):
+                v = float(MeanPopRank(tds, k).measure_list(ItemList(item_ids=np.array(Lp, dtype=np.int64), ordered=True), ItemList(item_ids=np.array(T, dtype=np.int64))))
+            real = None if math.isnan(v) else v
+        except Exception as e: real = "EXC:" + type(e).__name__
+        model = lean.call("c06.measure", {"metric": "meanpop", "k": k, "recs": Lp, "truth": [], "counts": [[i, c] for i, c in enumerate(pc)]})
+        ok = (model is None and real is None) or (isinstance(real, float) and model is not None and abs(real - float(Fraction(model))) <= TOL)
+        detail["meanpop"] = {"impl": real, "model": model, "recs": Lp}
+        if not ok: corr = False; failed.append("meanpop: value differs from definition (unknown / never-seen items count as 0)")
+        if isinstance(real, float) and not (-TOL <= real <= 1 + TOL): spec = False; failed.append(f"meanpop: {real} outside [0, 1]")
     # ideal ranking scores 1 (binary and graded), evaluated on the implementation
     if T:
         order = sorted(range(len(T)), key=lambda j: -gains[j])
@@ -85,6 +108,8 @@ def run(case: dict, lean: Lean) -> Outcome:
     if pairs: classes.append("swap available")
     if disc != "log2": classes.append("discount " + disc)
     if any(g == 0 for g in gains): classes.append("zero gain")
+    if case.get("pop_unknown"): classes.append("popularity of a list with items unknown to the training data")
+    if case.get("pop_counts") and 0 in case["pop_counts"]: classes.append("popularity table with never-seen items")
     key = None
     if not corr and disc == "rank-int" and all(f.split(":")[0] in ("dcg", "ndcg", "dcg_gain", "ndcg_gain") for f in failed):
         key = "DCG with an integer-valued discount function"
